@@ -573,7 +573,7 @@ def deck_list():
 
 def plan(tier, seed):
     decks = deck_list()
-    n, per = (200, 25) if tier == "quick" else (10000, 250)
+    n, per = (800, 50) if tier == "quick" else (10000, 250)
     units = [{"kind": "corpus", "decks": decks[i::10]} for i in range(10)]
     return units + [{"kind": "gen", "lo": lo, "hi": min(n, lo + per)} for lo in range(0, n, per)]
 
